@@ -10,6 +10,8 @@
  *   W i j d sig                    process i: optional timer (d > 0: due after d, signal code sig), wait for process j, then hold
  *   R i k                          process i: acquire resource k first (k in 0..1), keep it
  *   KILL i                         closing event: stop, terminate and destroy process i (in file order; the rest follows in index order)
+ *   FT i t d sig                   an event at time code t arms a timer on process i from outside (due after d, signal code sig), whatever
+ *                                  it is blocked in by then - the supervisor that gives a worker a deadline
  */
 #include "core.h"
 #include <stdlib.h>
@@ -23,6 +25,9 @@ static int np;
 static struct cmb_process *pp[TD_MAXP];
 static tdscript sc[TD_MAXP];
 static struct cmb_resource *res[2];
+#define TD_MAXFT 8
+static struct { int i; int64_t d, sig; } ft[TD_MAXFT];
+static int nft;
 
 static void *td_body(struct cmb_process *me, void *ctx)
 {
@@ -47,6 +52,17 @@ static void td_kill(int i)
     TR1("kill", i);
 }
 
+static void td_ft(void *s, void *o)
+{
+    (void)o;
+    const int k = (int)(intptr_t)s;
+    struct cmb_process *p = pp[ft[k].i];
+    if (p == NULL || cmb_process_status(p) != CMB_PROCESS_RUNNING) return;
+    (void)cmb_process_timer_add(p, dur_of(ft[k].d), 7100 + ft[k].sig);
+    g_stats.faults++;
+    TR2("ft", ft[k].i, ft[k].d);
+}
+
 static void td_end(void *s, void *o)
 {
     (void)s; (void)o;
@@ -69,11 +85,21 @@ static void td_run(const plan *p)
         else if (pis(l, "W")) { sc[i].kind = 1; sc[i].target = (int)((uint64_t)pa(l, 1) % (uint64_t)np); sc[i].d = pa(l, 2) < 0 ? 0 : pa(l, 2) % 24; sc[i].sig = pa(l, 3) % 100; }
         else if (pis(l, "R")) sc[i].res = (int)((uint64_t)pa(l, 1) % 2);
     }
+    nft = 0;
     for (int i = 0; i < np; i++) {
         char nm[16]; snprintf(nm, sizeof nm, "T%d", i);
         pp[i] = cmb_process_create();
         cmb_process_initialize(pp[i], nm, td_body, &sc[i], (int64_t)(i % 3));
         cmb_process_start(pp[i]);
+    }
+    for (int k = 0; k < p->n && nft < TD_MAXFT; k++) {
+        const pline *l = &p->l[k];
+        if (!pis(l, "FT")) continue;
+        ft[nft].i = (int)((uint64_t)pa(l, 0) % (uint64_t)np);
+        ft[nft].d = pa(l, 2) <= 0 ? 1 : pa(l, 2) % 24;
+        ft[nft].sig = pa(l, 3) % 100;
+        (void)cmb_event_schedule(td_ft, (void *)(intptr_t)nft, NULL, dur_of(pa(l, 1) < 0 ? 0 : pa(l, 1) % 24), (pa(l, 3) & 1) ? 20 : -5);
+        nft++;
     }
     (void)cmb_event_schedule(td_end, NULL, NULL, dur_of(tend <= 0 ? 4 : tend % 24 ? tend % 24 : 4), 10);
     uint64_t n = 0;
@@ -100,6 +126,8 @@ static void td_gen(plan *p, uint64_t seed, const char *cfg)
         else plan_add(p, "H", 2, (int64_t)i, grid[vrng_below(&r, 7)]);
         if (vrng_chance(&r, 1, 4)) plan_add(p, "R", 2, (int64_t)i, (int64_t)vrng_below(&r, 2));
     }
+    const int nf = vrng_chance(&r, 1, 2) ? (int)vrng_below(&r, 4) : 0;
+    for (int k = 0; k < nf; k++) plan_add(p, "FT", 4, (int64_t)vrng_below(&r, (uint64_t)n), grid[vrng_below(&r, 7)], grid[1 + vrng_below(&r, 6)], (int64_t)vrng_below(&r, 100));
     const int nk = (int)vrng_below(&r, (uint64_t)n + 1);
     for (int k = 0; k < nk; k++) plan_add(p, "KILL", 1, (int64_t)vrng_below(&r, (uint64_t)n));
 }
